@@ -405,6 +405,15 @@ fn test_module(r: &mut Prng, c: &Consts, idx: usize, n_tests: usize) -> String {
         };
         defs.push(d);
     }
+    // a test whose EVALUATION ends in a machine error (not merely `False`), right before ordinary
+    // passing tests: whatever an aborted run leaves behind on its worker (uncharged steps, traces)
+    // must not reach the test that worker runs next
+    let odd = 2 * r.range(0, 6) + 1;
+    defs.insert(
+        r.below(defs.len() + 1),
+        format!("test boom{idx}_a() fail {{\n  if helpers.is_even({odd}) {{\n    True\n  }} else {{\n    fail @\"boom\"\n  }}\n}}\n"),
+    );
+    defs.push(format!("test boom{idx}_b() fail {{\n  if helpers.is_even({odd}) {{\n    True\n  }} else {{\n    fail @\"boom\"\n  }}\n}}\n"));
     // a local helper + a local constant shared by two tests of this module
     defs.push(format!("const local_k: List<Int> = {}\n", list_lit(&[idx as i64, c.limit, 7])));
     defs.push("fn twice(n: Int) -> Int {\n  n * 2\n}\n".to_string());
@@ -480,6 +489,14 @@ pub fn gen_project(r: &mut Prng, name: &str) -> GenProject {
     let n_validators = 1 + r.below(3);
     for i in 0..n_validators {
         files.push((format!("validators/v{i}.ak"), validator_module(r, &c, i)));
+    }
+    // the same validator NAME in several modules (names are module-scoped): the blueprint's order
+    // of validators must not fall back on the iteration order of a hash map when names tie
+    for k in 0..4 {
+        files.push((
+            format!("validators/m{k}.ak"),
+            format!("validator main {{\n  spend(_datum: Option<Data>, redeemer: Int, _oref: Data, _tx: Data) {{\n    redeemer > {}\n  }}\n\n  else(_) {{\n    fail\n  }}\n}}\n", k + 1),
+        ));
     }
     // two validators sharing the same `expect` statements (same text => same compiler-generated
     // trace-and-fail helper under compact / verbose) but FIRST USING them in a different order: what a
